@@ -531,3 +531,11 @@ Definition dns_default_cached (cache : list (cid * cid)) (w : world) (a : cid) :
   | Some e => (snd e, cache)
   | None => let t := default_target true a (client_mappings w a) in (t, if t =? 0 then cache else (a, t) :: cache)
   end.
+
+(* HTTPDomainDelete that lets ANY sender reap a mapping whose ExpiresAt has passed (a seeded breaking change).  In the model
+   expiry is not an input of any decision: an expired mapping or domain is an ordinary object of the world, still its owner's. *)
+Definition dom_delete_reaping (expired : N -> bool) (w : world) (a : cid) (i : N) : world :=
+  match find_dom i (w_doms w) with
+  | Some d => if (d_owner d =? a) || expired i then with_doms w (remove_dom i (w_doms w)) else w
+  | None => w
+  end.
